@@ -554,7 +554,11 @@ PROPS = {
                   ("Bug_MoveRecordLosesDelete", REO, REOQ, "ManifestMatches")],
         work=[dict(driver="hist", args=["--nops", "60", "--per-file", "6", "--reopen-bias", "1"],
                    quick=48, thorough=1000),
-              dict(driver="crash", args=["--nops", "30", "--threads", "2", "--every", "3"],
+              # (with second-generation probes: crash DURING the recovery of a crash image - also
+              # right before every rename -, recovery with other sizes, and the shape reported
+              # after the next reopen)
+              dict(driver="crash", args=["--nops", "30", "--threads", "2", "--every", "3",
+                                         "--gen2-every", "4", "--both-reuse"],
                    quick=4, thorough=60),
               # an automatic trivial move in every run (then reopens: the manifest replays it)
               dict(driver="hist", args=["--nops", "45", "--per-file", "6", "--profile", "trivial",
